@@ -260,6 +260,7 @@ func runC15(c *Ctx) {
 		normaliserRule(c, f, false)
 	}
 	traversalGuards(c)
+	extractionWellFormed(c)
 	// D5
 	const R = "absent-part-guard"
 	c.rule(R, guardRuleText)
@@ -279,6 +280,9 @@ func runC15(c *Ctx) {
 	const RL = "loop-totality"
 	c.rule(RL, loopRuleText)
 	c.loopTotality(RL, pkgFilter(c.reachDecls(RL, extractionEntries...), "sbom.(*NodeList).", "sbom.(*Edge).AddDestinationById"), loopPolicies, commonSkips)
+	// "edges only among the returned nodes, including every edge the traversal followed": the
+	// normaliser and the indexes key edges by (source, type) — the two must not run into each other
+	compositeKeysSeparated(c, "composite-key-separated", pkgFilter(c.reachDecls("composite-key-separated", extractionEntries...), "sbom.(*NodeList)."))
 	// an extraction reads the graph it is given: writing it changes what the next extraction sees
 	const RW = "no-operand-write"
 	c.rule(RW, "the extraction functions write no memory reachable from their receiver (origin dataflow with callee summaries)")
